@@ -658,7 +658,8 @@ Arguments MError {A} e.
 Section ShellProofs.
 Variable promote : list slot -> nat -> list Z.
 Variable bracket_rungs : list (list (nat * Z)).
-Hypothesis promote_ok : forall rung n, NoDup (promote rung n) /\ forall t, In t (promote rung n) -> In (Some t) (map fst rung).
+Hypothesis promote_ok : forall rung n, (NoDup (somes (map fst rung)) -> NoDup (promote rung n)) /\
+                                       forall t, In t (promote rung n) -> In (Some t) (map fst rung).
 Hypothesis rungs_ok : bracket_rungs <> [] /\
   Forall (fun rs => exists size lvl fut, rs = (size, lvl) :: fut /\ (0 < size)%nat) bracket_rungs.
 
@@ -733,7 +734,7 @@ Proof.
   - split; [intros z [] | intros; constructor].
   - rewrite somes_map_promoted. destruct (promote_ok (write_slot rung idx (tr, Some mv)) size) as [P1 P2]. split.
     + intros z Hz. apply A. apply In_somes. apply P2. exact Hz.
-    + intros _ _. exact P1.
+    + intros Hnd Hnw. apply P1. apply B; assumption.
 Qed.
 
 Lemma written_wf b rung ms idx x b' : cur b = Some (rung, ms) -> bracket_wf b -> (idx < first_free b)%nat ->
@@ -1047,5 +1048,123 @@ Proof.
     + unfold bs2, create_new_bracket. apply Forall_app. split; [exact I7 | constructor; [apply bracket_wf_new | constructor]].
     + unfold bs2, create_new_bracket. rewrite app_length. cbn. lia.
     + unfold bid. lia.
+Qed.
+
+Lemma NoDup_snoc {A} (l : list A) x : NoDup l -> ~ In x l -> NoDup (l ++ [x]).
+Proof.
+  induction l as [|a l IH]; cbn; intros Hnd Hni; [constructor; [tauto | constructor]|].
+  inversion Hnd as [|? ? Ha Hl]; subst. constructor.
+  - intro Hin. apply in_app_or in Hin as [Hin|[->|[]]]; [exact (Ha Hin) | apply Hni; left; reflexivity].
+  - apply IH; [exact Hl | intro H; apply Hni; right; exact H].
+Qed.
+
+(* a new pending entry for the slot just handed out *)
+Lemma add_entry st bound m' bid sl0 b' k bound' :
+  SInv st bound -> bound <= bound' -> k < bound' -> ~ In k (map fst (sh_pending st)) ->
+  NoDup (flat_map cur_trials (m_brackets m')) -> (forall t, In t (flat_map cur_trials (m_brackets m')) -> t < bound) ->
+  Forall (entry_ok (m_brackets m') (m_primary m')) (sh_pending st) -> Forall bracket_wf (m_brackets m') ->
+  (m_primary m' < length (m_brackets m'))%nat -> (m_primary m' <= bid)%nat ->
+  nth_error (m_brackets m') bid = Some b' -> (forall e, In e (sh_pending st) -> loc e <> (bid, s_index sl0)) ->
+  slot_valid b' sl0 = true -> s_trial sl0 = Some k ->
+  (In k (flat_map cur_trials (m_brackets m')) ->
+     exists rung ms, cur b' = Some (rung, ms) /\ nth_error rung (s_index sl0) = Some (Some k, None)) ->
+  SInv {| sh_mgr := m'; sh_pending := sh_pending st ++ [(k, (bid, sl0))] |} bound'.
+Proof.
+  intros [I1 I2 I3 I4 I5 I6 I7 I8] Hbb Hk Hnk N B E W P Pb Hb Hloc Hv Etr Hcond.
+  constructor; cbn [sh_mgr sh_pending]; auto.
+  - apply Forall_app. split; [exact E|]. constructor; [|constructor]. exists b'. cbn [fst snd].
+    split; [exact Hb|]. split; [exact Hv|]. split; [exact Pb|]. split; [exact Etr | exact Hcond].
+  - rewrite map_app. cbn. apply NoDup_snoc; assumption.
+  - rewrite map_app. cbn. apply NoDup_snoc; [exact I4|]. intro Hin. apply in_map_iff in Hin as [e [E1 E2]].
+    apply (Hloc e E2). rewrite E1. unfold loc. reflexivity.
+  - intros t Ht. specialize (B t Ht). lia.
+  - intros t Ht. rewrite map_app in Ht. apply in_app_or in Ht as [Ht|[<-|[]]]; [specialize (I6 t Ht); lia | exact Hk].
+Qed.
+
+Theorem shell_step_ok st bound e : SInv st bound -> slegal st bound e = true ->
+  exists st', shell_step promote bracket_rungs st e = MOk st' /\ SInv st' (next_bound bracket_rungs st bound e).
+Proof.
+  intros HI Hl. destruct e as [tid ok|t r v|t]; cbn [shell_step next_bound slegal] in *.
+  - (* suggest *)
+    destruct (next_job_ok st bound HI) as [m' [bid [sl [b' [Ej [Ep [N [B [E [W [P [Pb [Hb [Hloc [rung [ms [C1 [C2 [C3 C4]]]]]]]]]]]]]]]]]]].
+    rewrite Ej. destruct (s_trial sl) as [t'|] eqn:Et.
+    + (* a paused trial is resumed: it cannot be pending already *)
+      assert (Hin_t' : In t' (flat_map cur_trials (m_brackets m'))).
+      { apply in_flat_map. exists b'. split; [eapply nth_error_In; eauto|]. unfold cur_trials. rewrite C1. apply In_somes.
+        apply nth_error_In in C2. apply (in_map fst) in C2. exact C2. }
+      destruct (lookup t' (sh_pending st)) as [[bid2 sl2]|] eqn:ELk.
+      * exfalso. apply lookup_In in ELk. rewrite Forall_forall in E. destruct (E _ ELk) as [b2 [E1 [E2 [E3 [E4 E5]]]]].
+        cbn [fst snd] in E1, E2, E3, E4, E5. destruct (E5 Hin_t') as [rg [m0 [D1 D2]]].
+        assert (bid2 = bid).
+        { eapply (flat_map_nodup_component cur_trials (m_brackets m') N bid2 bid b2 b' t'); eauto.
+          - unfold cur_trials. rewrite D1. apply In_somes. apply nth_error_In in D2. apply (in_map fst) in D2. exact D2.
+          - unfold cur_trials. rewrite C1. apply In_somes. apply nth_error_In in C2. apply (in_map fst) in C2. exact C2. }
+        subst bid2. rewrite Hb in E1. inversion E1; subst b2. rewrite C1 in D1. inversion D1; subst rg m0.
+        assert (Hnd_r : NoDup (somes (map fst rung))).
+        { pose proof (flat_map_nodup_each cur_trials _ N bid b' Hb) as H. unfold cur_trials in H. rewrite C1 in H. exact H. }
+        assert (s_index sl2 = s_index sl).
+        { assert (X1 : nth_error (map fst rung) (s_index sl2) = Some (Some t')) by (apply (map_nth_error fst _ _ D2)).
+          assert (X2 : nth_error (map fst rung) (s_index sl) = Some (Some t')).
+          { rewrite (map_nth_error fst _ _ C2). cbn. rewrite ?Et. reflexivity. }
+          exact (somes_nth_inj (map fst rung) Hnd_r _ _ t' X1 X2). }
+        specialize (C4 _ ELk eq_refl). cbn [fst snd] in C4. lia.
+      * eexists. split; [reflexivity|].
+        assert (Hv : slot_valid b' sl = true).
+        { pose proof (C3 (Some t')) as X. unfold slot_valid in *. cbn [with_trial s_rung s_index s_level s_trial] in X.
+          rewrite ?Et. apply X. intros x Hx. congruence. }
+        apply (add_entry st bound m' bid sl b' t' bound HI); auto; try lia.
+        -- apply lookup_None_notin. exact ELk.
+        -- intros _. exists rung, ms. auto.
+    + destruct ok.
+      * (* a new trial *)
+        assert (Hnk : ~ In tid (map fst (sh_pending st))) by (intro H; pose proof (si_bound_keys _ _ HI tid H); lia).
+        destruct (lookup tid (sh_pending st)) as [x|] eqn:ELk; [exfalso; destruct x; apply lookup_In in ELk; apply Hnk; apply in_map_iff; eexists; split; [|exact ELk]; reflexivity|].
+        eexists. split; [reflexivity|].
+        apply (add_entry st bound m' bid (with_trial sl (Some tid) None) b' tid (tid + 1) HI); auto; try lia.
+        -- apply C3. intros x Hx. discriminate.
+        -- intro Hin. specialize (B tid Hin). lia.
+      * (* the searcher has no configuration: the slot is reported as failed *)
+        destruct m' as [bs' p']. cbn [m_brackets m_primary] in *.
+        assert (Hv0 : slot_valid b' (with_trial sl None None) = true) by (apply C3; intros x Hx; discriminate).
+        assert (Htr0 : forall t, @None Z = Some t -> ~ In t (map fst (sh_pending st)) /\ t < bound /\
+                   (In t (flat_map cur_trials bs') -> exists rung ms, cur b' = Some (rung, ms) /\ nth_error rung (s_index sl) = Some (Some t, None)))
+          by (intros t Ht; discriminate).
+        destruct (result_preserves bs' p' (sh_pending st) bid b' sl None MNaN bound N E W P Hb Hv0 Pb Hloc Htr0 B) as [m'' [R0 [R1 [R2 [R3 [R4 R5]]]]]].
+        rewrite R0. eexists. split; [reflexivity|]. destruct HI as [I1 I2 I3 I4 I5 I6 I7 I8].
+        constructor; cbn [sh_mgr sh_pending]; auto.
+        -- intros t Ht. specialize (R5 t Ht). lia.
+        -- intros t Ht. specialize (I6 t Ht). lia.
+  - (* report *)
+    destruct (lookup t (sh_pending st)) as [[bid sl]|] eqn:ELk; [|exists st; auto].
+    pose proof (lookup_In _ _ _ ELk) as Hin. pose proof (si_entries _ _ HI) as I2. rewrite Forall_forall in I2.
+    destruct (I2 _ Hin) as [b [_ [_ [_ [E4 _]]]]]. cbn [fst snd] in E4. rewrite E4. cbn [opt_eqb]. rewrite Z.eqb_refl. cbn [negb].
+    destruct (s_level sl <=? r) eqn:ELv; [|exists st; auto].
+    assert (Er : negb (r =? s_level sl) = false) by lia. rewrite Er.
+    destruct (finish_entry st bound t bid sl (MVal v) HI Hin) as [m' [R0 R1]]. rewrite E4 in R0. rewrite R0. eauto.
+  - (* failure *)
+    destruct (lookup t (sh_pending st)) as [[bid sl]|] eqn:ELk; [|exists st; auto].
+    pose proof (lookup_In _ _ _ ELk) as Hin.
+    destruct (finish_entry st bound t bid sl MNaN HI Hin) as [m' [R0 R1]]. rewrite R0. eauto.
+Qed.
+
+Lemma SInv_init : SInv (shell_init bracket_rungs) 0.
+Proof.
+  unfold shell_init. constructor; cbn [sh_mgr sh_pending m_brackets m_primary].
+  - rewrite alltrials_create. constructor.
+  - constructor.
+  - constructor.
+  - constructor.
+  - rewrite alltrials_create. intros t [].
+  - intros t [].
+  - unfold create_new_bracket. cbn. constructor; [apply bracket_wf_new | constructor].
+  - unfold create_new_bracket. cbn. lia.
+Qed.
+
+Theorem shell_run_ok h : forall st bound, SInv st bound -> slegal_hist promote bracket_rungs st bound h ->
+  exists st', shell_run promote bracket_rungs st h = MOk st'.
+Proof.
+  induction h as [|e h IH]; intros st bound HI HL; cbn [shell_run]; [eauto|].
+  cbn [slegal_hist] in HL. destruct HL as [Hl HL]. destruct (shell_step_ok st bound e HI Hl) as [st' [E HI']].
+  rewrite E in *. eapply IH; eauto.
 Qed.
 End ShellProofs.
